@@ -283,10 +283,30 @@ CLAIMS = {
     },
 }
 
+CLAIMS['C20'] = {
+    'technique': 'static analysis: decision-table extraction (symbolic walk of the CFG under every assignment of '
+                 'the condition atoms) for the handler-inclusion test, the stop condition over the three '
+                 'DBusHandlerResult values, both binary searches and the pruning test; path-sensitive typestate of '
+                 'what find_subtree_recurse may return; linear-expression comparison of memmove index/count '
+                 'arguments; must-pass-through of the occupied test before registration stores; constant-argument '
+                 'table of the four public registration entry points',
+    'text': 'Decides the structural clauses of dbus/dbus-object-tree.c: a node is offered a message exactly when it '
+            'has a handler and is the exact match or a fallback, exact can hold for the first node of the ->parent '
+            'walk only, handlers are invoked deepest first with their own data and the loop continues exactly on '
+            'NOT_YET_HANDLED; found_object is "lookup found a covering node" and selects UnknownMethod / '
+            'UnknownObject; the lookup returns a partially covering node only in deepest-match mode for a fallback '
+            'node with exact = FALSE; lookup, insertion and removal agree on the sorted-children discipline '
+            '(same three-way search, insert at the final search position, exact tail shifts, counts +-1); an '
+            'occupied path fails before any store; pruning needs no children and no handler; the child listing '
+            'copies child i to slot i of n+1 zeroed slots.',
+    'note': NOT_DECIDED_COMMON + 'Not decided: which handler a given history of registrations selects (a function of '
+            'the run-time trie), re-entrancy from handlers, callback locking, the built-in Introspect document. '
+            'Earlier declared not applicable; claimed after the clauses above were found to be necessary '
+            'conditions visible in the code (DESIGN.md section 10.8).',
+    'design': 'DESIGN.md section 10.8',
+}
+
 NOT_APPLICABLE = {
-    'C20': 'handler selection is a function of a run-time trie (sorted child arrays, binary search, '
-           'deepest-match walk); no clause is visible in the shape of the code except a single conditional '
-           'expression, which would be a frozen-fragment proxy (DESIGN.md section 6)',
 }
 
 PENDING = 'not claimed'
